@@ -131,6 +131,35 @@ class PathData(Ext):
     def sym_copy(self):
         return PathData(self.cmds)
 
+    def printed(self):
+        """The text CPython prints for this path data when every number is a constant (repr of the float, integral values without ".0" -
+        the library's own number printer is checked by C10); None when a number is symbolic."""
+        from fractions import Fraction
+        from sa.sym import simplify_num
+        parts = []
+        for c, args in self.cmds:
+            if c == "G":
+                return None
+            toks = []
+            for a in args:
+                v = simplify_num(a) if not isinstance(a, (int, float, Fraction)) else a
+                if not isinstance(v, (int, float, Fraction)) or isinstance(v, bool):
+                    return None
+                f = float(v)
+                toks.append(str(int(f)) if f.is_integer() else repr(f))
+            parts.append(c + ",".join(toks))
+        return " ".join(parts)
+
+    def sym_contains(self, it, item):
+        from sa.sym import Undecided as _U
+        text = self.printed()
+        if text is None or not isinstance(item, str):
+            raise _U("membership in symbolic path data")
+        # separators are the printer's business: only characters that occur inside numbers / letters are decided here
+        if any(ch in " ," for ch in item):
+            raise _U("membership of a separator in path data")
+        return item in text
+
     def sym_getitem(self, it, k):
         if k == 0:
             if not self.cmds:
